@@ -1336,6 +1336,10 @@ class TransformSet:
             captures = frozenset(captures)
         if captures in self.transforms:
             return self.transforms[captures]
+        if self.transforms[None][2] is not None:
+            # The function is already tooled (all of its variables are
+            # instrumented, and overlays may depend on it): keep it this way
+            return self.transforms[None]
 
         transformed = transform(
             self.base_function,
